@@ -415,7 +415,10 @@ def finalize (st : RState) (ok : Bool) (res : Option SyncResult) : Outcome :=
 
 /-- `handleCompletion` -/
 def handleCompletion (cfg : Cfg) (st : RState) (s : Session) (totalChunks totalBytes : Nat) : Outcome :=
-  if !cfg.legacy && (totalChunks ≠ s.chunksReceived || totalBytes ≠ s.totalReceived || !s.buffer.isEmpty) then
+  -- fixes/F17A.diff: chunks still buffered always fail the completion; the sender's totals are compared only
+  -- when the completion announces them (a completion without totals keeps the old behaviour)
+  if !cfg.legacy && (!s.buffer.isEmpty ||
+      ((totalChunks != 0 || totalBytes != 0) && (totalChunks != s.chunksReceived || totalBytes != s.totalReceived))) then
     finalize st false none
   else
     let st1 := match st.core.cur with
